@@ -107,6 +107,32 @@ impl SliceRead<Option<f64>> for &Float64Chunked {
     }
 }
 
+impl<'t> SliceRead<Option<&'t str>> for &'t polars::prelude::StringChunked {
+    fn read_slice<'a>(s: &<Self as Vec1View<Option<&'t str>>>::SliceOutput<'a>) -> Vec<Option<&'t str>>
+    where
+        Self: 'a,
+    {
+        // the slice owns its buffers: hand the strings out as leaked copies (tiny, harness only)
+        s.into_iter().map(|x| x.map(|t| &*Box::leak(t.to_string().into_boxed_str()))).collect()
+    }
+}
+macro_rules! slice_read_ca {
+    ($CA:ty, $t:ty) => {
+        impl SliceRead<Option<$t>> for &$CA {
+            fn read_slice<'a>(s: &<Self as Vec1View<Option<$t>>>::SliceOutput<'a>) -> Vec<Option<$t>>
+            where
+                Self: 'a,
+            {
+                s.into_iter().collect()
+            }
+        }
+    };
+}
+slice_read_ca!(polars::prelude::Int64Chunked, i64);
+slice_read_ca!(polars::prelude::Int32Chunked, i32);
+slice_read_ca!(polars::prelude::Float32Chunked, f32);
+slice_read_ca!(polars::prelude::BooleanChunked, bool);
+
 /// ring buffer of capacity `cap` whose head sits at physical offset `off`
 pub fn deque_with_head<T: Clone>(items: &[T], cap: usize, off: usize, filler: T) -> VecDeque<T> {
     let mut d: VecDeque<T> = VecDeque::with_capacity(cap);
